@@ -285,6 +285,27 @@ func C17(ctx *Ctx) {
 					lo, hi, found = l, h, true
 				}
 			}
+			// whatever the spelling of the limit: as a function of the quotient alone, the channel is min(31, q)
+			// for each of the 65536 values the 16-bit quotient can take (the term is evaluated, not the code)
+			if bad == "" && len(q.Lin.T) == 1 && q.Lin.C == 0 && q.Lin.T[0].K == 1 {
+				qa := q.Lin.T[0].A
+				okAll, at := true, uint64(0)
+				for v := uint64(0); v <= 0xFFFF && okAll; v++ {
+					want := v
+					if want > 31 {
+						want = 31
+					}
+					got, ok := o.EvalConst(av.Lin, ip.In.Conds, map[string]uint64{qa.Key: v})
+					if !ok || got != want {
+						okAll, at = false, v
+					}
+				}
+				if okAll {
+					R.Pass("shape", key, pos, "min(31, floor("+n+"*m/d)) of its own channel (the channel term evaluated for every value of the quotient)")
+					continue
+				}
+				_ = at
+			}
 			switch {
 			case bad != "":
 			case !found:
